@@ -131,7 +131,15 @@ Proof.
     | |- (_ <= _)%nat => cbn; lia
     | |- _ => cbn; lia
     end.
-  - eexists. split; [vm_compute; reflexivity|]. vm_compute. repeat split; repeat constructor; auto.
+  - eexists. split; [vm_compute; reflexivity|].
+    cbn [BinS.bmatch BinS.pmatch]. unfold BinS.hmatch, BinP.num_eq. cbn [Bin.flags Bin.label Bin.shape].
+    repeat match goal with
+    | |- _ /\ _ => split
+    | |- Forall2 _ _ _ => constructor
+    | |- _ \/ _ => left
+    | |- _ = _ => reflexivity
+    | |- True => exact I
+    end.
 Qed.
 
 Print Assumptions C18_unbits_bits.
